@@ -8,7 +8,7 @@ CONSTANTS
   MaxFeed = 6
   MaxEof = 4
   SlowSet = {"C", "D", "X"}
-  CfgWrite = FALSE
+  CfgWrite = TRUE
 CONSTRAINT Progress
 POSTCONDITION Post
 CHECK_DEADLOCK FALSE
